@@ -793,6 +793,15 @@ func (f *FnVC) trCall(env *Env, x SCall) TV {
 			return TV{t, nil, a.Sort}
 		}
 		sfail("storeAt: first argument must be a ghost map")
+	case "addrOfElem":
+		// addrOfElem(s, i): &s[i] for a slice s
+		a, i := arg(0), arg(1)
+		sl, ok := a.Ty.Underlying().(*types.Slice)
+		if !ok {
+			sfail("addrOfElem(slice, index)")
+		}
+		fn := f.declFun("eptr_"+shortTypeName(sl.Elem()), []string{"Int", "Int"}, "Int")
+		return f.tv(sApp(fn, "(s_ref "+a.T+")", sIdx("(s_off "+a.T+")", i.T)), types.NewPointer(sl.Elem()))
 	case "addrOfField":
 		// addrOfField(p, f): address of field f of the struct p points to
 		a := arg(0)
